@@ -70,9 +70,9 @@ class Ctx:
             if isinstance(cond, SymBool):
                 Engine.cur.assume(cond)
             elif not cond:
-                from .core import PathAbort
+                from .core import Infeasible
 
-                raise PathAbort("assumption false")
+                raise Infeasible("assumption false")
         elif not cond:
             raise OutOfDomain("assumption")
 
